@@ -120,6 +120,11 @@ def run_path(body, args, corner=None):
         rec['twin'] = True
         ok = False
     ok = bool(ok)
+    if ok and rec.get('known') and rec['known'] not in KNOWN_HITS:
+        a = deep_realize(list(args))
+        _finish(rec)
+        rec['args'] = _plainify(a)
+        KNOWN_HITS[rec['known']] = rec
     if not ok:
         a = deep_realize(list(args))
         _finish(rec)
@@ -138,11 +143,30 @@ def pick(x, lo, hi):
     raise AssertionError('pick: value outside [%d, %d]' % (lo, hi))
 
 
+def _load_known():
+    path = os.path.join(os.path.dirname(os.path.dirname(os.path.abspath(__file__))), 'known_findings.json')
+    try:
+        with open(path) as f:
+            return {e['key'] for e in json.load(f).get('findings', []) if e.get('status', 'open') == 'open'}
+    except Exception:
+        return set()
+
+
+KNOWN_KEYS = _load_known()      # read-only: recorded genuine defects (never extended at run time)
+KNOWN_HITS = {}                 # fkey -> first record (with realised args) that met it
+
+
 def fail(rec, why, **kw):
+    """Record a property failure on this path. A failure whose specific key (rec['fkey']) is a recorded finding is logged and the
+    path continues as held, so that the exploration goes on and any *other* violation is still found and reported."""
     with untraced():
         rec['why'] = why
         for k, v in kw.items():
             rec[k] = _plainify(deep_realize(v))
+        fkey = rec.get('fkey')
+        if fkey is not None and fkey in KNOWN_KEYS:
+            rec['known'] = fkey
+            return True
     return False
 
 
